@@ -457,7 +457,13 @@ func (d *Decoder) decodeSet(mem MemCache, msg *Message) error {
 	// For template and reserved flowsets, anything up to 4 bytes is padding.
 	minLen := 5
 	if setHeader.FlowSetID > 255 && err == nil {
-		minLen = tr.recordLength()
+		if minLen = tr.recordLength(); minLen == 0 {
+			// records of no octets: decoding them would never advance
+			err = nonfatalError{fmt.Errorf("%s netflow template id# %d describes empty records",
+				d.raddr.String(),
+				setHeader.FlowSetID,
+			)}
+		}
 	}
 
 	for err == nil && (int(setHeader.Length)-(d.reader.ReadCount()-startCount) >= minLen) && (setHeader.FlowSetID > 255 || d.reader.Len() > 4) {
